@@ -363,6 +363,16 @@ def run(P, chk, tier):
     builders = [("dns_encode", 2, 3), ("dns_encode_ns_response", 2, None), ("dns_encode_a_response", 2, None)]
     for name, qi, qri in builders:
         f = P.func(name, "dns.c")
+        # the walk follows one write cursor (`p`); a second pointer that takes the cursor's value (a helper working
+        # on a local copy and writing it back) is a shape it cannot follow
+        copies = set()
+        for b_, x_ in f.all_nodes():
+            if x_.get("k") == "Bin" and x_["op"] == "=" and sk(x_["a"][0]).get("k") == "Ref" and sk(x_["a"][1]).get("k") == "Ref" and \
+                    (sk(x_["a"][0]).get("t") or {}).get("k") == "ptr" and pp(sk(x_["a"][0])) == "p" and \
+                    sk(x_["a"][1])["ref"].get("rk") == "local":
+                copies.add("%s = %s" % (pp(sk(x_["a"][0])), pp(sk(x_["a"][1]))))
+        if copies:
+            raise AnalysisBroken("C10: %s copies its write cursor (%s): the token walk follows a single cursor" % (name, ", ".join(sorted(copies))))
         w = DnsWalk(P, f)
         st = sym.State()
         w.run_unrolled(f.entry, st, {f.exit}, maxvisit=3)
@@ -613,10 +623,25 @@ def aux_and_sender(P, E, chk):
             sep = "->" if (sk(v["a"][0]).get("t") or {}).get("k") == "ptr" else "."
             an = an or E.analysis(f)
             ds = an.before_node(node["n"]) or []
-            okt = bool(ds) and all(guard.d_holds(d, "==", ik + sep + "type", hk + hsep + "type") for d in ds)
+            def holders(d):
+                """The holder under its own name and, when it is a pointer variable, under the name of what it points to
+                on this path (`pending == &users[u].q`)."""
+                out_ = [(hk, hsep)]
+                if hsep == "->":
+                    for g in d:
+                        if g.kind == "cmp" and g.op == "==" and g.key[0] == hk and isinstance(g.key[2], str) and g.key[2].startswith("&"):
+                            out_.append((g.key[2][1:], "."))
+                return out_
+            okt = bool(ds) and all(any(guard.d_holds(d, "==", ik + sep + "type", h_ + s_ + "type") for h_, s_ in holders(d)) for d in ds)
             names = (ik + sep + "name", hk + hsep + "name")
 
             def exact(d):
+                for h_, s_ in holders(d):
+                    if exact1(d, (ik + sep + "name", h_ + s_ + "name")):
+                        return True
+                return False
+
+            def exact1(d, names):
                 for g in d:
                     if g.kind == "cmp" and g.op == "==" and g.key[2] == 0 and isinstance(g.key[0], str):
                         m = sk(g.l)
